@@ -56,6 +56,7 @@ type Unit struct {
 	headCounter map[int]int
 	loopOrdOf   map[ast.Node]int
 	nLoops      int
+	opaqueUsed  bool // the function uses state of another package's object (outside the model)
 	notes       []string // harmless contract/code mismatches (reported with -v)
 	loopPre     map[int]*State
 	sawPoolGet  bool
@@ -358,6 +359,12 @@ func (u *Unit) freshValue(st *State, static types.Type, name string) Value {
 	t := u.conc(static)
 	if isTypeParam(static) {
 		return Value{K: KNum, T: t, Term: u.ctx.Fresh(name, u.numSort(t, true))}
+	}
+	if n, ok := t.(*types.Named); ok && n.Obj().Pkg() != nil && n.Obj().Pkg().Path() != u.prog.Pkg.Types.Path() {
+		if _, isStruct := n.Underlying().(*types.Struct); isStruct {
+			// a struct value of a type from another package (sync/atomic.Pointer, …): opaque state
+			return Value{K: KStruct, T: t, Str: "opaque:" + n.Obj().Pkg().Path() + "." + n.Obj().Name(), Fields: map[string]Value{}}
+		}
 	}
 	switch tt := t.(type) {
 	case *types.Basic:
